@@ -149,7 +149,13 @@ pub fn install_panic_hook() {
         } else {
             "<non-string panic>".into()
         };
-        LAST_PANIC.with(|p| *p.borrow_mut() = Some((loc, msg)));
+        // keep the FIRST panic since the last `catch` began (runtimes re-panic with less detail)
+        LAST_PANIC.with(|p| {
+            let mut p = p.borrow_mut();
+            if p.is_none() {
+                *p = Some((loc, msg));
+            }
+        });
         let quiet = QUIET_PANICS.with(|q| q.get());
         if !quiet || std::env::var_os("VERIF_VERBOSE").is_some() {
             default(info);
